@@ -17,7 +17,7 @@ import pandas as pd
 from .. import core, env, exact, tlc, trace
 from ..drivers import scheme as sdrv
 
-INVS = ["C01_Bounds", "C01_FaceValue", "C01_MonoX", "C01_MonoT_First", "C01_Relaxes", "C01_MMatrix",
+INVS = ["C01_Bounds", "C01_FaceValue", "C01_MonoX", "C01_MonoT_First", "C01_Relaxes", "C01_MMatrix", "C01_ProofForm",
         "C04_Residual", "C03_Conserve", "C03_ConserveIdeal", "C17_ShiftInvariant"]
 
 
@@ -31,6 +31,45 @@ def design_models(ctx: core.Ctx, full: bool = True) -> None:
         ctx.model_check("Scheme", c, workers=16)
     ctx.expect_refuted("Scheme", "MC_Scheme_dev_asShipped.cfg", "C01_Bounds", workers=8)
     ctx.expect_refuted("Scheme", "MC_Scheme_dev_sameK.cfg", "C01_FaceValue", workers=8)
+
+
+def proof_check(ctx: core.Ctx) -> None:
+    """Re-check MaxPrincipleProof.tla (the maximum principle of the stencil for every N) with tlapm.
+
+    The proof is a statement about the specification only (Scheme.tla's C01_ProofForm ties it to the TLC model), so its
+    outcome is recorded in the evidence and never decides the property: a prover that is missing or times out under
+    load is reported as "not rechecked".
+    """
+    import re  # noqa: PLC0415
+    import shutil  # noqa: PLC0415
+    import subprocess  # noqa: PLC0415
+
+    info = {"module": "MaxPrincipleProof.tla", "theorems": ["RowUpper", "RowLower", "ArgMax", "ArgMin", "MaxPrinciple",
+                                                             "MinPrinciple", "MaxPrincipleIdeal", "MinPrincipleIdeal"]}
+    ctx.extra["tlaps"] = info
+    if shutil.which("tlapm") is None:
+        info["status"] = "not rechecked: tlapm not on PATH"
+        return
+    sdir = env.scratch("tlaps")
+    try:
+        shutil.copy(env.SPEC / "MaxPrincipleProof.tla", sdir / "MaxPrincipleProof.tla")
+        for stretch in (3, 10):
+            try:
+                r = subprocess.run(["tlapm", "--cleanfp", "--stretch", str(stretch), "--threads", "8", "MaxPrincipleProof.tla"],
+                                   cwd=sdir, capture_output=True, text=True, timeout=1500, check=False)
+            except subprocess.TimeoutExpired:
+                info["status"] = "not rechecked: tlapm timed out"
+                continue
+            out = r.stdout + r.stderr
+            m = re.search(r"All (\d+) obligations? proved", out)
+            if m and r.returncode == 0:
+                info["status"] = "proved"
+                info["obligations"] = int(m.group(1))
+                return
+            m = re.search(r"(\d+)/(\d+) obligations failed", out)
+            info["status"] = f"not rechecked: {m.group(0) if m else 'tlapm rc=' + str(r.returncode)} (stretch {stretch})"
+    finally:
+        env.cleanup(sdir)
 
 
 def export_cases(ctx: core.Ctx) -> list[dict]:
